@@ -9,7 +9,7 @@ from decimal import Decimal
 from tie.framework import g_bool, g_list, g_pair, g_str, g_Z, run_impl_parallel
 
 PROP = "C10"
-IMPORTS = "From JV Require Import Lib.Base Model.C10Adapt Model.C10Parser Spec.C10Spec Corr.C10Judge."
+IMPORTS = "From JV Require Import Lib.Base Model.C10Adapt Model.C10Parser Model.C10Nargs Spec.C10Spec Corr.C10Judge."
 RULE = ("kind ns (modelled): a seeded random parser of 1-3 typed arguments under plain or dotted keys (type grammar: str, int, "
         "float, bool, Any, Literal, Enum, Optional/Union of 2-3 members, List, Dict[str,_], Dict[int,_], Tuple[..], Tuple[T,...], "
         "Set, nesting depth <=3; defaults absent, conforming, given as text, or a non-conforming str) and an object for "
@@ -38,13 +38,25 @@ RULE = ("kind ns (modelled): a seeded random parser of 1-3 typed arguments under
         "with or without their own extras, in every spelling and channel (5 % dedicated cases plus the multi-option parsers). Every x "
         "case also runs the dump leg: dump(cfg), parse_string of it compared with cfg modulo '__path__' "
         "entries, and the dump of that compared byte for byte. non-trivial = the first parse is accepted and some value changed representation or "
-        "is a container; distinct = distinct (parser, input)")
+        "is a container; distinct = distinct (parser, input). Round 6: kind nl (modelled, Model/C10Nargs.v): one list-valued option "
+        "(nargs '+', '*', 1, 2) of a random modelled type and the value given for it in an object (a list of items drawn like any value "
+        "of the type incl. text and junk; now and then a tuple / set / str / mapping / scalar / empty sequence). 40 % of the x cases and "
+        "8 % of the ns cases carry a CALL HISTORY between the parse and the checks: 1-3 calls that the library rejects, each at "
+        "another stage (bad value, unknown key, missing --cfg file, required option missing, a selected class whose own default "
+        "violates its annotation — rejected inside add_sub_defaults — through argv / object / string / inside a list, a bad dataclass "
+        "field in a list, broken text, and rejections by the parser under test itself); such cases run in a forked child so that a "
+        "leak shows in that case and cannot mask later ones. New x shapes: Annotated (plain, pydantic validator), Type[...], "
+        "OrderedDict[str,_], TypedDict with NotRequired keys, Callable given as a function path, a dataclass given like a class spec, "
+        "nested command-line keys into Dict / Optional[dataclass] / the last item of a List of class specs, list-valued (nargs) options "
+        "of registered / path / Enum / Optional types through every channel, required options, partially given dataclasses as items "
+        "of Dict / Tuple containers. Every leg (validate, parse_object, dump) gets its own clone of the configuration and must leave "
+        "it as it was")
 TRUSTED = [
     "Coq 8.16.1 kernel + vm_compute",
     "tie/impl/c10_run.py (builds the real parser, runs parse/validate/parse_object, encodes values by exact Python kind; "
     "sets listed in a canonical order and compared as sets) and the Gallina printer in tie/props/c10.py",
-    "hand-written models coq/Model/C10Adapt.v (adapt_typehints, _check_type) and coq/Model/C10Parser.v (parse_object, "
-    "validate), tied by per-case agreement evaluated inside Coq",
+    "hand-written models coq/Model/C10Adapt.v (adapt_typehints, _check_type), coq/Model/C10Nargs.v (_check_type of a list-valued "
+    "option) and coq/Model/C10Parser.v (parse_object, validate), tied by per-case agreement evaluated inside Coq",
     "the text readers (json_or_yaml_load, parse_value_or_config, int) are not modelled: the theorems hold for arbitrary "
     "readers, the correspondence feeds the model what the real readers answered for every string of the case",
 ]
@@ -62,8 +74,12 @@ ASSUMPTIONS = [
     "equality of configurations ignores the ORDER of dict items (Python's == on dict / Namespace); the model tie still compares it",
     "metadata: the object re-parse must hand back the '__path__' entries it was given (full equality); the dump leg compares "
     "modulo '__path__' entries, which text cannot carry (DESIGN A.6)",
-    "history: C10 quantifies over parsers and inputs, not over call histories (that is C09); the one history exercised is a failed "
-    "--cfg load earlier in the process, because it is cheap and the dump leg is where such a leak shows",
+    "history: C10 quantifies over parsers and inputs; call histories are C09's subject, but a parse result must stay a fixed point "
+    "whatever the library refused in between, so two cheap history shapes are exercised: a failed --cfg load BEFORE the parse (pre) "
+    "and 1-3 rejected calls BETWEEN the parse and the checks (mid, tie/impl/c10_run.py fault_call); cases with a history run in a "
+    "forked child of the runner",
+    "list-valued options (kind nl): the model ignores the COUNT nargs demands (parse_object / validate never check it; argparse "
+    "does, on the command line only); one option, no default, value given through parse_object",
     "kind x: equality of opaque values (paths, registered-type instances) is equality of (type name, repr / relative -> absolute "
     "path); a Decimal is compared by value (Decimal('1.50') == Decimal('1.5')), as Python does",
 ]
@@ -372,6 +388,37 @@ def gen_ns(rng):
     return ns_case(decls, assign)
 
 
+def gen_nl(rng):
+    """kind nl (modelled, Model/C10Nargs.v): ONE list-valued option (nargs '+', '*', 1, 2; no default) of a modelled type and
+    the value given for it in an object: mostly a list of items drawn like any value of the type (text, other kinds, junk),
+    now and then a tuple / set / str / mapping / scalar / empty sequence (refused, or handed back untouched when empty)"""
+    t = gen_type(rng, rng.randint(0, 2))
+    nargs = rng.choice(["+", "+", "*", 2, 1])
+    r = rng.random()
+    n = rng.randint(0, 3)
+    items = [gen_value(rng, t, rng.choice([0, 1, 1, 2])) for _ in range(n)]
+    if r < 0.8:
+        v = L(items)
+    elif r < 0.86:
+        v = rng.choice([T(items), T([]), S(""), S("ab"), SET([]), D([]), D([(S("a"), I(1))]), I(3), L([])])
+    elif r < 0.93:
+        v = L([S(render(x)) if x[0] != "str" else x for x in items])
+    else:
+        v = L(items + [NONE])
+    return {"kind": "nl", "decls": [{"key": "k", "ty": t, "default": NONE, "nargs": nargs}], "obj": D([(S("k"), v)])}
+
+
+def curated_nl():
+    mk = lambda t, v, nargs="+": {"kind": "nl", "decls": [{"key": "k", "ty": t, "default": NONE, "nargs": nargs}],  # noqa: E731
+                                  "obj": D([(S("k"), v)])}
+    U = lambda *ms: ["union", list(ms)]  # noqa: E731
+    return [mk(INT, L([S("1"), I(2)])), mk(FLT, L([S("1"), I(1), F(0.5)])), mk(COLOR, L([S("red"), ["enum", "Color", "blue"]])),
+            mk(U(INT, NON), L([S("1"), NONE, S("null")])), mk(["list", INT], L([S("[1, 2]"), L([S("3")])])), mk(INT, L([]), "*"),
+            mk(INT, T([I(1)])), mk(INT, T([])), mk(INT, S("")), mk(INT, S("12")), mk(INT, D([])), mk(INT, I(3)), mk(STR, L([S("a"), I(1)])),
+            mk(U(STR, INT), L([S("1"), S("[1]"), I(2)])), mk(ANY, L([S("1"), S("x")])), mk(["set", INT], L([L([I(1), I(1)])])),
+            mk(U(["tuple", [INT]], ["set", INT]), L([L([I(1), I(1)])])), mk(INT, L([I(1), I(2), I(3)]), 2), mk(INT, NONE)]
+
+
 def one(t, v, dflt=NONE):
     return ns_case([{"key": "k", "ty": t, "default": dflt}], [("k", v)])
 
@@ -430,8 +477,10 @@ X_LEAVES = [
     (["timedelta"], [S("1:00:00"), S("2 days, 0:00:00"), S("0:00:05"), S("24:00:00"), S("30:00:00"), S("26:10:00"), S("1 day, 0:01:00"),
                      S("48:00:00"), S("100:00:00"), S("-1 day, 23:00:00"), O("timedelta", "86460"), O("timedelta", "3600"),
                      O("timedelta", "-90000"), O("timedelta", "172800")]),
-    (["range"], [S("range(1, 5)"), S("range(0, 10, 2)"), S("range(5)"), O("range", "1,9,3")]),
-    (["decimal"], [S("0.1"), S("1.50"), S("1e3"), S("-7"), O("decimal", "0.1"), O("decimal", "12345678901234567890.123456789")]),
+    (["range"], [S("range(1, 5)"), S("range(0, 10, 2)"), S("range(5)"), O("range", "1,9,3"), S("range(0, 9, 3)"), O("range", "0,8,2"),
+                 S("range(0, -6, -2)"), S("range(2, 2)")]),
+    (["decimal"], [S("0.1"), S("1.50"), S("1e3"), S("-7"), O("decimal", "0.1"), O("decimal", "12345678901234567890.123456789"),
+                   S("3.14159265358979323846"), S("0.1000000000000000055511151231257827"), O("decimal", "1E+30")]),
     (["uuid"], [S("12345678-1234-5678-1234-567812345678"), O("uuid", "12345678123456781234567812345678")]),
     (["enum", "Color", ["red", "green", "blue"]], [S("red"), ["enum", "Color", "green"]]),
     (["enum", "Sz", ["s", "m", "true"]], [S("true"), S("m"), ["enum", "Sz", "true"]]),
@@ -443,7 +492,26 @@ X_LEAVES = [
     (["data", "D2"], [D([(S("p"), I(1)), (S("q"), D([(S("a"), S("3"))]))]), D([(S("r"), L([S("2"), S("b")]))])]),
     (["sub"], [D([(S("class_path"), S("calendar.Calendar")), (S("init_args"), D([(S("firstweekday"), S("2"))]))]),
                S("calendar.TextCalendar"), D([(S("class_path"), S("TextCalendar"))])]),
+    # round 6 (reach): Annotated (plain and with a pydantic validator), Type[...], TypedDict with NotRequired keys,
+    # Callable given as a function path
+    (["annot"], [S("3"), I(3), S("x")]),
+    (["annotv"], [S("3"), I(3), S("0"), I(-1)]),
+    (["type", "Net"], [S("c10_classes.ConvNet"), S("c10_classes.Net"), S("c10_classes.Sgd")]),
+    (["tdict"], [D([(S("a"), S("1"))]), D([(S("a"), I(1)), (S("b"), S("x"))]), D([(S("a"), I(1)), (S("c"), L([S("1"), I(2)]))]),
+                 D([(S("b"), S("x"))]), D([(S("a"), I(1)), (S("z"), I(1))])]),
+    (["callable"], [S("c10_classes.double"), S("c10_classes.halve"), S("c10_classes.nope")]),
 ]
+DATA_AS_SPEC = D([(S("class_path"), S("__main__.D1")), (S("init_args"), D([(S("a"), S("2"))]))])   # a dataclass given like a class spec
+
+# calls that the library rejects (tie/impl/c10_run.py, fault_call): a parse result stays a fixed point whatever was refused in between
+FAULTS = ["bad_value", "unknown_key", "cfg_missing", "required_missing", "sub_default", "sub_default_object", "sub_default_string",
+          "sub_default_in_list", "dataclass_field", "string_broken", "same_unknown_key", "same_bad_string", "same_validate"]
+
+
+def with_mid(rng, case, prob):
+    if rng.random() < prob:
+        case["mid"] = rng.sample(FAULTS, rng.randint(1, 3))
+    return case
 
 
 # ---- parsers with several options whose names are prefix-related, subclass-typed options with defaults ---------------
@@ -661,7 +729,7 @@ def gen_x_nested(rng):
         elem = ["sub", base]
         mk = lambda: spec_value(rng, fam)[0]  # noqa: E731
     else:
-        leaf, vals = rng.choice([lv for lv in X_LEAVES if lv[0][0] not in ("data", "sub")])
+        leaf, vals = rng.choice([lv for lv in X_LEAVES if lv[0][0] != "sub"] + [lv for lv in X_LEAVES if lv[0][0] == "data"] * 2)
         elem = leaf
         mk = lambda: rng.choice(vals)  # noqa: E731
     et = ["union", [elem, NON]] if optional else elem
@@ -787,9 +855,12 @@ def gen_x_kwargs(rng):
         decls.append({"key": name, "ty": ["sub", "Plug"], "default": dflt, "default_kwargs_class": "c10_classes." + dcls})
         if rng.random() < 0.15:
             continue
-        cls = rng.choice([dcls, [c for c in KWARGS_CLASSES if c != dcls][0], "Strict", "Plug"])
+        cls = rng.choice([dcls, dcls, [c for c in KWARGS_CLASSES if c != dcls][0], "Strict", "Plug"])
         ps = [[q, param_value(rng, fam[cls][q])] for q in sorted(fam[cls]) if rng.random() < 0.4]
         extras = gen_extras(rng, cls, 0.8)
+        if extras and rng.random() < 0.5:          # an extra key the default also has, with another value
+            q0 = rng.choice(dextras)[0]
+            extras = [e for e in extras if e[0] != q0] + [[q0, rng.choice([I(7), S("w"), F(1.5)])]]
         spec = [(S("class_path"), S("c10_classes." + cls if rng.random() < 0.7 else cls))]
         if ps:
             spec.append((S("init_args"), D([(S(q), v) for q, v in ps])))
@@ -812,7 +883,121 @@ def gen_x_kwargs(rng):
     return case
 
 
+def by_channel(rng, case, name, v, channels=("object", "args", "string", "cfgfile")):
+    ch = "object" if has_obj(v) else rng.choice(channels)
+    case["channel"] = ch
+    if ch == "object":
+        case["input"] = D([(S(name), v)])
+    elif ch == "args":
+        case["input"] = ["--%s=%s" % (name, v[1] if v[0] == "str" else render(v))]
+    elif ch == "string":
+        case["input"] = "%s: %s\n" % (name, json.dumps(v[1]) if v[0] == "str" else render(v))
+    else:
+        case.setdefault("files", {})["main.yaml"] = "%s: %s\n" % (name, json.dumps(v[1]) if v[0] == "str" else render(v))
+        case["input"] = ["--cfg=main.yaml"]
+    return case
+
+
+NARGS_TYPES = [(INT, [S("1"), I(2), S("-3")]), (FLT, [S("1"), F(0.5)]), (COLOR, [S("red"), ["enum", "Color", "blue"]]),
+               (["timedelta"], [S("1:00:00"), S("30:00:00")]), (["path", "fr"], [S("f1.txt"), S("dir1/f3.txt")]),
+               (["union", [INT, NON]], [S("1"), S("null"), I(4)]), (["posint"], [S("3"), I(1)]), (STR, [S("a"), S("1"), S("x y")]),
+               (["list", INT], [S("[1, 2]"), L([I(1)])])]
+
+
+def gen_x_more(rng):
+    """round 6 (reach): shapes of the anchored code that the earlier generators never met"""
+    r = rng.randrange(8)
+    if r == 0:
+        # an ordered / read-only mapping type
+        leaf, vals = rng.choice([(INT, [S("1"), I(2)]), (STR, [S("a"), S("1")]), (["timedelta"], [S("1:00:00"), S("30:00:00")]),
+                                 (["posint"], [S("3")]), (["union", [INT, NON]], [NONE, S("2")])])
+        t = ["odict", leaf]      # (types.MappingProxyType[...] is not a supported type hint for add_argument)
+        v = D([(S(k), rng.choice(vals)) for k in rng.sample(["b", "a", "z", "m"], rng.randint(0, 3))])
+        if rng.random() < 0.3:
+            t = ["union", [t, NON]]
+        return by_channel(rng, {"kind": "x", "decls": [{"key": "k", "ty": t, "default": NONE}]}, "k", v)
+    if r == 1:
+        # a dataclass given like a class spec (class_path + init_args), bare, Optional, in a list
+        t = rng.choice([["data", "D1"], ["union", [["data", "D1"], NON]], ["list", ["data", "D1"]], ["dict", False, ["data", "D1"]]])
+        v = DATA_AS_SPEC if t[0] in ("data", "union") else (L([DATA_AS_SPEC, D([(S("b"), S("y"))])]) if t[0] == "list"
+                                                              else D([(S("w"), DATA_AS_SPEC), (S("v"), D([(S("a"), I(3))]))]))
+        return by_channel(rng, {"kind": "x", "decls": [{"key": "k", "ty": t, "default": NONE}]}, "k", v)
+    if r == 2:
+        # nested command-line keys into a mapping / an Optional dataclass / the last item of a list of class specs
+        w = rng.randrange(3)
+        if w == 0:
+            t = ["dict", False, rng.choice([INT, STR, ["union", [INT, NON]], ["timedelta"]])]
+            dflt = D([(S("c"), I(3) if t[2] != STR else S("z"))]) if rng.random() < 0.4 and t[2] != ["timedelta"] else NONE
+            vals = {"int": ["1", "2"], "str": ["x", "1"], "union": ["1", "null"], "timedelta": ["1:00:00", "30:00:00"]}[t[2][0]]
+            argv = ["--k.%s=%s" % (k, rng.choice(vals)) for k in rng.sample(["a", "b", "c"], rng.randint(1, 3))]
+            if rng.random() < 0.3:
+                argv.insert(0, "--k={a: %s}" % rng.choice(vals))
+        elif w == 1:
+            t = ["union", [["data", "D1"], NON]]
+            dflt = NONE
+            argv = rng.sample(["--k.a=2", "--k.b=y", "--k.c=[1, 2]"], rng.randint(1, 3))
+        else:
+            base = rng.choice(["Net", "Opt"])
+            fam = FAMILIES[base]
+            t = ["list", ["sub", base]]
+            dflt = NONE
+            argv = []
+            for _ in range(rng.randint(1, 2)):
+                cls = rng.choice(sorted(fam))
+                argv.append("--k+=%s" % cls)
+                for q in sorted(fam[cls]):
+                    if rng.random() < 0.4:
+                        argv.append("--k.%s=%s" % (q, render(param_value(rng, fam[cls][q]))))
+        return {"kind": "x", "decls": [{"key": "k", "ty": t, "default": dflt}], "channel": "args", "input": argv}
+    if r in (3, 4):
+        # list-valued options (nargs): every item goes through the option's type
+        t, vals = rng.choice(NARGS_TYPES)
+        nargs = rng.choice(["+", "*", 2, 1])
+        n = nargs if isinstance(nargs, int) else rng.randint(0 if nargs == "*" else 1, 3)
+        items = [rng.choice(vals) for _ in range(n)]
+        decls = [{"key": "k", "ty": t, "default": NONE, "nargs": nargs}]
+        if rng.random() < 0.3:
+            decls.append({"key": "n", "ty": INT, "default": I(1)})
+        case = {"kind": "x", "decls": decls}
+        ch = rng.choice(["object", "args", "string", "cfgfile"])
+        if any(x[0] not in ("str", "int", "float") for x in items) and ch == "args":
+            ch = "object"
+        case["channel"] = ch
+        if ch == "args":
+            case["input"] = ["--k"] + [x[1] if x[0] == "str" else render(x) for x in items]
+        elif ch == "object":
+            case["input"] = D([(S("k"), L(items))])
+        else:
+            text = "k: %s\n" % render_q(L(items))
+            if ch == "string":
+                case["input"] = text
+            else:
+                case["files"] = {"main.yaml": text}
+                case["input"] = ["--cfg=main.yaml"]
+        return case
+    if r == 5:
+        # a required option, given or not, next to others
+        leaf, vals = rng.choice([(INT, [S("3"), I(4)]), (["timedelta"], [S("24:00:00")]), (["path", "fr"], [S("f1.txt")]),
+                                 (["dict", False, INT], [D([(S("a"), S("1"))])])])
+        decls = [{"key": "r", "ty": leaf, "default": NONE, "required": True}, {"key": "n", "ty": INT, "default": I(1)}]
+        v = rng.choice(vals)
+        case = {"kind": "x", "decls": decls}
+        if rng.random() < 0.15:
+            return by_channel(rng, case, "n", I(2))
+        return by_channel(rng, case, "r", v)
+    # the new leaves, bare
+    leaf, vals = rng.choice(X_LEAVES[-5:])
+    return by_channel(rng, {"kind": "x", "decls": [{"key": "k", "ty": leaf, "default": NONE}]}, "k", rng.choice(vals))
+
+
 def gen_x(rng):
+    return with_mid(rng, gen_x0(rng), 0.4)
+
+
+def gen_x0(rng):
+    r = rng.random()
+    if r < 0.12:
+        return gen_x_more(rng)
     r = rng.random()
     if r < 0.3:
         return gen_x_multi(rng)
@@ -820,7 +1005,7 @@ def gen_x(rng):
         return gen_x_path(rng)
     if r < 0.65:
         return gen_x_nested(rng)
-    if r < 0.75:
+    if r < 0.73:
         return gen_x_text(rng)
     if r < 0.80:
         return gen_x_kwargs(rng)
@@ -949,7 +1134,7 @@ def search(rng, tier, broken):
     a fresh quick-sized sample, judged in Coq; a spec failure that is not a listed finding is the failing input"""
     from tie import framework as fw
 
-    cases = [gen_ns(rng) for _ in range(1200)] + [gen_x(rng) for _ in range(400)]
+    cases = [gen_ns(rng) for _ in range(1000)] + [gen_nl(rng) for _ in range(150)] + [gen_x(rng) for _ in range(400)]
     obs = observe(cases)
     _, bad_in, bad_out = fw.judge_cases(sys.modules[__name__], cases, obs, tag="x")
     known = fw.load_known_findings(PROP)
@@ -962,8 +1147,10 @@ def search(rng, tier, broken):
 
 def generate(rng, tier):
     n_ns, n_x = (1800, 700) if tier == "quick" else (16000, 3200)
-    cases = curated() + curated_x()
-    cases += [gen_ns(rng) for _ in range(n_ns)]
+    n_nl = 250 if tier == "quick" else 2500
+    cases = curated() + curated_x() + curated_nl()
+    cases += [gen_nl(rng) for _ in range(n_nl)]
+    cases += [with_mid(rng, gen_ns(rng), 0.08) for _ in range(n_ns)]
     cases += [gen_x(rng) for _ in range(n_x)]
     return cases
 
@@ -1081,6 +1268,8 @@ def g_xty(t):
         return "(XCont %s %s)" % (g_str(k), g_list([g_xty(t[2])], "xty"))
     if k == "tuple":
         return "(XCont %s %s)" % (g_str(k), g_list([g_xty(x) for x in t[1]], "xty"))
+    if k in ("odict", "mproxy"):
+        return "(XCont %s %s)" % (g_str(k), g_list([g_xty(t[1])], "xty"))
     return "(XLeaf %s)" % g_str(k)
 
 
@@ -1104,6 +1293,11 @@ def g_oracle(o):
 
 def term(case, obs):
     again = g_list([g_outcome(a) for a in obs["again"]], "(outcome (list val))")
+    if case["kind"] == "nl":
+        seen = obs["seen"]["obj"]
+        v0 = seen[1][0][1] if seen and seen[0] == "dict" and seen[1] else case["obj"][1][0][1]
+        return "LCase %s (%s) %s %s %s %s" % (g_ty(case["decls"][0]["ty"]), g_val(v0), g_oracle(obs["oracle"]), g_outcome(obs["first"]),
+                                            g_bool(obs["valid"]), again)
     if case["kind"] == "ns":
         # values as the implementation saw them: sets in their iteration order
         p = g_list(["{| d_key := %s; d_ty := %s; d_default := %s |}" % (g_str(d["key"]), g_ty(d["ty"]), g_val(dv))
@@ -1149,6 +1343,14 @@ def py_ty(t):
         return "Path_%s" % t[1]
     if k == "sub" and len(t) > 1:
         return "c10_classes." + t[1]
+    if k in ("odict", "mproxy"):
+        return "%s[str, %s]" % ({"odict": "OrderedDict", "mproxy": "MappingProxyType"}[k], py_ty(t[1]))
+    if k == "type":
+        return "Type[c10_classes.%s]" % t[1]
+    if k in ("annot", "annotv", "tdict", "alias", "callable"):
+        return {"annot": "Annotated[int, 'unit']", "annotv": "Annotated[int, pydantic.Field(gt=0)]",
+                "tdict": "TypedDict('TD1', a=int, b=NotRequired[str], c=NotRequired[Optional[List[int]]])",
+                "alias": "TypeAliasType('ALIAS', List[Optional[int]])", "callable": "Callable[[int], int]"}[k]
     return {"pathlib": "pathlib.Path", "timedelta": "datetime.timedelta", "posint": "PositiveInt", "unit": "ClosedUnitInterval",
             "nnfloat": "NonNegativeFloat", "email": "Email", "sub": "calendar.Calendar", "decimal": "decimal.Decimal",
             "uuid": "uuid.UUID"}.get(k, "dataclass " + str(t[1:]))
@@ -1188,6 +1390,8 @@ def py_outcome(o):
 def changed(case, obs):
     if obs["first"][0] != "ok":
         return False
+    if case["kind"] == "nl":
+        return case["obj"][1][0][1][0] == "list" and len(case["obj"][1][0][1][1]) > 0
     if case["kind"] != "ns":
         return True
     given = {}
@@ -1211,7 +1415,7 @@ def changed(case, obs):
 def nontrivial_key(case, obs):
     if not changed(case, obs):
         return None
-    return json.dumps([case["decls"], case.get("obj"), case.get("channel"), case.get("input"), case.get("files"), case.get("pre")],
+    return json.dumps([case["decls"], case.get("obj"), case.get("channel"), case.get("input"), case.get("files"), case.get("pre"), case.get("mid")],
                       sort_keys=True)
 
 
@@ -1235,6 +1439,8 @@ def category(case, obs):
             dl = obs["dump"]
             same_cfg = json.dumps(dl["reparsed"]).replace(" ", "") == json.dumps(no_meta(obs["first"])).replace(" ", "")
             what += "/dump-stable" if same_cfg and dl["text1"] is not None and dl["text1"] == dl["text2"] else "/dump-UNSTABLE"
+    if case["kind"] == "nl":
+        return "nl nargs=%s [%s] %s" % (case["decls"][0]["nargs"], kinds, what)
     if case["kind"] == "ns":
         return "ns %d keys [%s] %s" % (len(case["decls"]), kinds, what)
     return "x %s [%s] %s" % (case["channel"], kinds, what)
@@ -1243,7 +1449,9 @@ def category(case, obs):
 def describe(case, obs):
     d = {"parser": ["add_argument('--%s', type=%s%s%s)" % (x["key"], py_ty(x["ty"]),
                                                          "" if x.get("default", NONE) == NONE else ", default=%s" % py_val(x["default"]),
-                                                         ", enable_path=True" if x.get("enable_path") else "")
+                                                         (", enable_path=True" if x.get("enable_path") else "")
+                                                         + (", nargs=%r" % (x["nargs"],) if x.get("nargs") else "")
+                                                         + (", required=True" if x.get("required") else ""))
                     for x in case["decls"]]}
     if case.get("files"):
         d["files in the working directory"] = case["files"]
@@ -1251,7 +1459,7 @@ def describe(case, obs):
         d["earlier in the same process (another parser with the same options plus --cfg; the call fails)"] = "parse_args(%r)" % (case["pre"],)
     if case.get("channel") == "cfgfile":
         d["parser"].insert(0, "add_argument('--cfg', action=ActionConfigFile)")
-    if case["kind"] == "ns":
+    if case["kind"] in ("ns", "nl"):
         d["call"] = "parse_object(%s)" % py_val(case["obj"])
     elif case["channel"] == "object":
         d["call"] = "parse_object(%s)" % py_val(case["input"])
@@ -1260,6 +1468,8 @@ def describe(case, obs):
     else:
         d["call"] = "parse_string(%r)" % (case["input"],)
     d["cfg (values in declaration order)"] = py_outcome(obs["first"])
+    if case.get("mid"):
+        d["then, in the same process, calls that are REJECTED (tie/impl/c10_run.py fault_call)"] = case["mid"]
     d["validate(cfg)"] = "passes" if obs["valid"] else "FAILS: " + obs.get("why", "")
     d["parse_object(cfg.clone()), parse_object(cfg.clone().as_dict())"] = [py_outcome(a) for a in obs["again"]]
     if obs.get("dump"):
@@ -1271,7 +1481,24 @@ def describe(case, obs):
 
 
 def shrink(case):
+    mid = case.get("mid")
+    if mid and case["kind"] == "ns":
+        yield {k: v for k, v in case.items() if k != "mid"}
+    for c in shrink_(case):
+        if mid and case["kind"] == "ns":
+            c = dict(c, mid=mid)
+        yield c
+
+
+def shrink_(case):
     ds = case["decls"]
+    if case["kind"] == "nl":
+        v = case["obj"][1][0][1]
+        for t2 in simpler_types(ds[0]["ty"]):
+            yield dict(case, decls=[dict(ds[0], ty=t2)])
+        for v2 in simpler_values(v):
+            yield dict(case, obj=D([(S("k"), v2)]))
+        return
     if case["kind"] == "ns":
         assign = []
 
@@ -1300,6 +1527,11 @@ def shrink(case):
         for i, d in enumerate(ds):
             for t2 in simpler_types(d["ty"]):
                 yield dict(case, decls=ds[:i] + [dict(d, ty=t2)] + ds[i + 1:])
+        if case.get("mid"):
+            yield {k: v for k, v in case.items() if k != "mid"}
+            if len(case["mid"]) > 1:
+                for i in range(len(case["mid"])):
+                    yield dict(case, mid=case["mid"][:i] + case["mid"][i + 1:])
         if case.get("pre") is not None:
             yield {k: v for k, v in case.items() if k != "pre"}
             for i in range(len(case["pre"]) - 1):
@@ -1375,12 +1607,21 @@ META = {
                   "with text loading, orig_val retry, default early-out, valid-string fallback), "
                   "C10_parsed_key_validates_and_reparses (a parsed key passes validation and re-parses to itself) and "
                   "C10_parse_object_fixed_point (parse_object over a parser with distinct dotted keys and defaults: the result "
-                  "validates and, handed back as an object, is returned unchanged; defaults applied once). The guard excludes "
+                  "validates and, handed back as an object, is returned unchanged; defaults applied once), and for list-valued options "
+                  "(nargs '+', '*', N; round 6) C10_nargs_check_type_fixed_point / C10_nargs_key_validates_and_reparses: _check_type with "
+                  "islist iterates the value, passes every item through the scalar path and writes it back (a mapping, a non-empty str / "
+                  "tuple / set and a scalar are refused, an empty str / tuple / set is handed back untouched) - the parsed list validates "
+                  "and re-parses to itself item by item, by induction on the list over the key-level theorem. The guard excludes "
                   "exactly the cases where a Union re-selects a member on the adapted value (finding union-reselects-member, "
                   "witness C10_fixed_point_refuted); Union-free types need no guard (C10_readapt_fixed_point_union_free). The models "
                   "are tied to the real parser by running parse_object / validate / parse_object(cfg) on generated parsers and "
                   "inputs and evaluating model- and spec-agreement inside Coq.",
-    "level_note": "Only exercised by the correspondence (spec judged in Coq, no model): paths, registered and restricted types, "
+    "level_note": "List-valued options are modelled for ONE option without default given through parse_object (kind nl); their "
+                  "argv / string / config-file channels, registered item types and the count nargs demands are correspondence only. "
+                  "Call histories (rejected calls between the parse and the checks, a failed --cfg load before it) and in-place change of "
+                  "the configuration handed to validate / parse_object / dump are observed, not modelled. "
+                  "Only exercised by the correspondence (spec judged in Coq, no model): paths, registered and restricted types, Annotated, "
+                  "Type[...], OrderedDict, TypedDict, Callable, "
                   "Enum, dataclasses, subclass specs with defaults under prefix-related option names, the argv and string channels, list "
                   "append, the as_dict() form of the re-parse (the model re-parses the flat key/value list), and the whole dump / "
                   "parse_string / dump clause of the property (observed for every such case: the configuration read back must equal "
@@ -1390,5 +1631,6 @@ META = {
                   "kernel/VM; the hand-written models outside the generated cases; the observation harness; the real text "
                   "readers, whose answers are fed to the model per case. No axioms.",
     "technique": "Rocq proof by structural induction on the type grammar and on lists (fixed point of a faithful Gallina model of "
-                 "adapt_typehints/_check_type/parse_object) + per-case correspondence with the real parser evaluated in Coq",
+                 "adapt_typehints/_check_type incl. its list-valued form/parse_object) + per-case correspondence with the real parser "
+                 "evaluated in Coq",
 }
